@@ -64,6 +64,11 @@ func refTrusted(hostport, initialHostname string) bool {
 	if h == p {
 		return true
 	}
+	// A sub-domain is a plain host name: an address literal, a zone, userinfo or any other
+	// delimiter in front of ".<initial host>" does not make the host a sub-domain of it.
+	if strings.ContainsAny(h, ":%[]@\\#?/ \t") {
+		return false
+	}
 	return p != "" && len(h) > len(p)+1 && strings.HasSuffix(h, "."+p)
 }
 
@@ -78,13 +83,14 @@ type hop struct {
 }
 
 type seen struct {
-	Dial       string      `json:"dialled"`
-	Method     string      `json:"method"`
-	Target     string      `json:"target"`
-	Hdr        [][2]string `json:"headers"`
-	BodyLen    int         `json:"body_len"`
-	Buffered   int         `json:"bytes_after_request"`
-	AnswerCode int         `json:"answered"`
+	Dial         string      `json:"dialled"`
+	Method       string      `json:"method"`
+	Target       string      `json:"target"`
+	Hdr          [][2]string `json:"headers"`
+	BodyLen      int         `json:"body_len"`
+	Buffered     int         `json:"bytes_after_request"`
+	AnswerCode   int         `json:"answered"`
+	BodyTimedOut bool        `json:"declared_body_never_arrived,omitempty"`
 }
 
 func (s *seen) get(name string) string {
@@ -152,13 +158,17 @@ func (n *fnet) serve(addr string, s net.Conn) {
 			}
 			return
 		}
-		bl, err := readBody(br, h)
-		if err != nil {
-			return
-		}
-		rec := &seen{Dial: addr, Method: h.Method, Target: h.Target, Hdr: h.Hdr, BodyLen: bl, Buffered: br.Buffered()}
+		// The request is recorded from its head alone; the body is dealt with afterwards and never waited
+		// for when the client cannot be expected to send one.
+		rec := &seen{Dial: addr, Method: h.Method, Target: h.Target, Hdr: h.Hdr}
 		n.mu.Lock()
 		k := len(n.reqs)
+		after303 := false // a 303 earlier in this chain: from then on the client has no body to send
+		for _, e := range n.reqs {
+			if e.AnswerCode == 303 {
+				after303 = true
+			}
+		}
 		n.reqs = append(n.reqs, rec)
 		var resp string
 		if k < len(n.hops) {
@@ -175,6 +185,25 @@ func (n *fnet) serve(addr string, s net.Conn) {
 			}
 		}
 		n.mu.Unlock()
+		framed := (h.get("Content-Length") != "" && h.get("Content-Length") != "0") || h.get("Transfer-Encoding") != ""
+		if after303 && framed {
+			// A request made after a 303 that still announces a body: the head is the evidence. Whatever body
+			// bytes came along are counted, nothing more is awaited, and the connection is not re-used.
+			rec.Buffered = br.Buffered()
+			br.Discard(rec.Buffered)
+			s.Write([]byte(strings.Replace(resp, "\r\n\r\n", "\r\nConnection: close\r\n\r\n", 1)))
+			return
+		}
+		s.SetReadDeadline(time.Now().Add(20 * time.Second)) // watchdog only: a declared body that never comes
+		bl, err := readBody(br, h)
+		s.SetReadDeadline(time.Time{})
+		if err != nil {
+			if ne, ok := err.(net.Error); ok && ne.Timeout() {
+				rec.BodyTimedOut = true
+			}
+			return
+		}
+		rec.BodyLen, rec.Buffered = bl, br.Buffered()
 		if _, err := s.Write([]byte(resp)); err != nil {
 			return
 		}
@@ -246,6 +275,19 @@ var untrustedSpellings = []spelling{
 	{"unicode-fold-sub", func(h string) string { return "x." + swapFirst(h, 'k', "K") }, func(h string) bool { return isName(h) && strings.Contains(h, "k") }},
 	{"fullwidth", func(h string) string { return "\uff41" + h[1:] }, isName},
 	{"nul-like-space", func(h string) string { return h + " .evil.com" }, isName},
+	// delimiters in front of a suffix equal to the trusted domain. The target is parsed, formatted and parsed
+	// again, so a percent sign has to be encoded twice to survive as '%'.
+	{"ipv6-zone-suffix", func(h string) string { return "[fe80::1%2525x." + h + "]" }, isName},
+	{"ipv6-zone-suffix", func(h string) string { return "[fe80::1%2525x." + h + "]:8080" }, isName},
+	{"ipv6-zone-suffix-once-encoded", func(h string) string { return "[fe80::1%25x." + h + "]" }, isName},
+	{"ipv6-zone-is-trusted-name", func(h string) string { return "[::1%2525" + h + "]" }, isName},
+	{"percent-before-suffix", func(h string) string { return "evil%2525." + h }, isName},
+	{"percent-before-suffix-once-encoded", func(h string) string { return "evil%25." + h }, isName},
+	{"colon-before-suffix", func(h string) string { return "evil:x." + h }, isName},
+	{"bracket-before-suffix", func(h string) string { return "[::2]." + h }, isName},
+	{"bracket-inside-before-suffix", func(h string) string { return "evil[x]." + h }, isName},
+	{"backslash-before-suffix", func(h string) string { return "evil\\." + h }, isName},
+	{"at-before-suffix-encoded", func(h string) string { return "evil%2540x." + h }, isName},
 }
 
 var initialHosts = []string{"a.com", "a.com", "example.com", "kiosk.test", "skate.example", "A.Com", "a.com:8080", "sub.a.com", "[::1]", "[::1]:8080", "127.0.0.1", "a.com.", "localhost"}
@@ -381,9 +423,16 @@ func genCase(r rng, idx int) chainCase {
 	if strings.HasSuffix(c.API, ".DoRedirects") && !c.Userinfo && r.Intn(4) == 0 {
 		c.Wire = pick(r, []string{"read", "read", "read+cookie-api", "copyto"})
 	}
-	if c.Body == "bytes" && c.Method == "POST" && c.Wire == "" && r.Intn(3) == 0 {
-		c.Body = "stream" // chunked stream + Trailer: only where the first answer drops the body
-		c.Hops[0].Status = 303
+	// Bodies that are not in the request's body buffer. A stream can be sent once, so it is used only where
+	// the first answer (303) drops the body; post arguments are re-serialised on every transmission.
+	if c.Body == "bytes" && c.Wire == "" {
+		switch x := r.Intn(10); {
+		case x < 3:
+			c.Body = pick(r, []string{"stream", "stream", "stream-sized", "stream-writer"})
+			c.Hops[0].Status = 303
+		case x < 5:
+			c.Body = "postargs"
+		}
 	}
 	c.Max = r.Intn(10)
 	if r.Intn(30) == 0 {
@@ -514,6 +563,17 @@ func builtRequest(c chainCase, req *fasthttp.Request) {
 		req.Header.SetContentType("application/x-c20")
 		req.Header.Set("Trailer", "X-Sum")
 		req.SetBodyStream(&plainReader{strings.NewReader("streamed-" + c.Token)}, -1)
+	case "stream-sized":
+		req.Header.SetContentType("application/x-c20")
+		req.SetBodyStream(strings.NewReader("streamed-"+c.Token), len("streamed-"+c.Token))
+	case "stream-writer":
+		req.Header.SetContentType("application/x-c20")
+		tok := c.Token
+		req.SetBodyStreamWriter(func(w *bufio.Writer) { w.WriteString("streamed-" + tok) })
+	case "postargs":
+		req.Header.SetContentType("application/x-www-form-urlencoded")
+		req.PostArgs().Set("k", "v"+c.Token)
+		req.PostArgs().Set("q", "body not in the body buffer")
 	}
 }
 
@@ -755,6 +815,7 @@ func TestC20(t *testing.T) {
 	r.Assume("'host' of a request = address handed to the Dial hook and the Host header received by the peer; trusted = equal to the initial URL's hostname (net/url) or a dot-boundary suffix match, ASCII case-insensitive, port and brackets ignored")
 	r.Assume("a secret is 'sent' when its token appears in the request line or any header received by the raw tag server")
 	r.Assume("key discipline: a secret arriving at an untrusted host while other secrets of the same request were stripped is a deletion defect (leak-partial-strip:<how the request was made>:<headers>); all secrets arriving is a trust-decision defect (leak:<spelling class>)")
+	r.Assume("the recording peers never wait for a body on the follow-up of a 303: that request is judged from its head (plus whatever body bytes arrived with it) and its connection is closed; elsewhere a declared body that does not arrive within 20 s makes the case inconclusive")
 	r.Assume("Get/Post have no configured redirect limit in the property: only DoRedirects is judged for the limit")
 	r.Assume("only the method change is demanded for POST on 301/302 (fasthttp keeps the body; the property does not forbid it)")
 	n := r.N(20_000, 1_000_000)
@@ -789,6 +850,14 @@ func TestC20(t *testing.T) {
 			ev("dials", len(o.Dials))
 			ev("https_targets_refused_by_plain_network", o.TLS)
 			ev("unparseable_request_heads", o.Junk)
+			for _, rq := range o.Reqs {
+				if rq.BodyTimedOut {
+					r.Inconclusive(fmt.Sprintf("case %d: %s %s announced a body that never arrived (20 s watchdog)", i, rq.Method, rq.Target))
+				}
+				if rq.AnswerCode == 303 && (c.Body == "stream" || c.Body == "stream-sized" || c.Body == "stream-writer" || c.Body == "postargs" || c.Body == "args") {
+					ev("answered_303_to_request_with_body_outside_body_buffer", 1)
+				}
+			}
 			if o.Err != "" {
 				ev("calls_returning_error", 1)
 			}
@@ -835,6 +904,7 @@ func TestC20(t *testing.T) {
 		r.Require("followups_of_303_checked", n/50)
 		r.Require("followups_of_post_301_302_checked", n/200)
 		r.Require("redirect_limit_reached", n/200)
+		r.Require("answered_303_to_request_with_body_outside_body_buffer", n/50)
 		r.Require("prefix_triple_foreign_host_reached_from_trusted_subdomain", n/100)
 		r.Require("wire_parsed_chain_reached_untrusted_host", n/50)
 	}
